@@ -23,25 +23,52 @@ Proof.
 Qed.
 
 (** * First loop *)
+Lemma sumLimit_val : sumLimit = 1073741824.
+Proof. reflexivity. Qed.
+
+(** every running sum of the first loop is at most [L] *)
+Fixpoint prefixesLe (wf : Z -> Z) (ents : list (move * Z)) (s L : Z) : Prop :=
+  match ents with
+  | [] => True
+  | e :: t => s + wf (snd e) <= L /\ prefixesLe wf t (s + wf (snd e)) L
+  end.
+
 Lemma sumLegal_some : forall wf legal ents s sum,
   sumLegal wf legal ents s = Some sum ->
-  sum = s + weightSum wf ents /\ Forall (fun e => In (fst e) legal) ents.
+  sum = s + weightSum wf ents /\ Forall (fun e => In (fst e) legal) ents /\ prefixesLe wf ents s sumLimit.
 Proof.
-  intros wf legal ents; induction ents as [|[m c] t IH]; intros s sum H; cbn in *.
-  - inversion H; subst. split; [lia | constructor].
+  intros wf legal ents; induction ents as [|[m c] t IH]; intros s sum H; cbn [sumLegal weightSum prefixesLe snd fst] in *.
+  - inversion H; subst. split; [lia | split; [constructor | exact I]].
   - destruct (containsMove legal m) eqn:Hc; [|discriminate].
-    apply IH in H. destruct H as [-> Hall]. split; [lia|].
-    constructor; [apply containsMove_In; exact Hc | exact Hall].
+    destruct (s + wf c >? sumLimit) eqn:Hl; [discriminate|]. rewrite Z.gtb_ltb in Hl.
+    apply IH in H. destruct H as [-> [Hall Hp]]. split; [lia|]. split.
+    + constructor; [apply containsMove_In; exact Hc | exact Hall].
+    + split; [lia | exact Hp].
 Qed.
 
 Lemma sumLegal_all_legal : forall wf legal ents s,
-  Forall (fun e => In (fst e) legal) ents ->
+  Forall (fun e => In (fst e) legal) ents -> prefixesLe wf ents s sumLimit ->
   sumLegal wf legal ents s = Some (s + weightSum wf ents).
 Proof.
-  intros wf legal ents; induction ents as [|[m c] t IH]; intros s H; cbn.
+  intros wf legal ents; induction ents as [|[m c] t IH]; intros s H Hp; cbn [sumLegal weightSum prefixesLe snd fst] in *.
   - f_equal; lia.
-  - inversion H; subst. cbn in H2. apply containsMove_In in H2. rewrite H2.
+  - inversion H; subst. cbn [fst] in H2. apply containsMove_In in H2. rewrite H2.
+    destruct Hp as [Hle Hp]. destruct (s + wf c >? sumLimit) eqn:Hl; [rewrite Z.gtb_ltb in Hl; lia|].
     rewrite IH by assumption. f_equal; lia.
+Qed.
+
+(** the sum handed to Random::nextInt never exceeds the limit *)
+Lemma sumLegal_le_limit : forall wf legal ents sum,
+  sumLegal wf legal ents 0 = Some sum -> sum <= sumLimit.
+Proof.
+  intros wf legal ents sum H.
+  assert (G : forall l s x, s <= sumLimit -> sumLegal wf legal l s = Some x -> x <= sumLimit).
+  { induction l as [|[m c] t IH]; intros s x Hs Hx; cbn [sumLegal] in Hx.
+    - inversion Hx; subst; exact Hs.
+    - destruct (containsMove legal m); [|discriminate].
+      destruct (s + wf c >? sumLimit) eqn:Hl; [discriminate|]. rewrite Z.gtb_ltb in Hl.
+      eapply IH; [|exact Hx]. lia. }
+  eapply G; [|exact H]. rewrite sumLimit_val. lia.
 Qed.
 
 (** * Second loop *)
@@ -73,7 +100,7 @@ Proof.
   destruct ents as [|e t]; [inversion H; auto|].
   destruct (sumLegal wf legal (e :: t) 0) as [sum|] eqn:Hs; [|inversion H; auto].
   destruct (sum <=? 0); [inversion H; auto|].
-  right. apply sumLegal_some in Hs. destruct Hs as [_ Hall].
+  right. apply sumLegal_some in Hs. destruct Hs as [_ [Hall _]].
   apply pick_move_in in H. apply in_map_iff in H. destruct H as [e' [<- Hin]].
   rewrite Forall_forall in Hall. apply Hall; exact Hin.
 Qed.
@@ -97,6 +124,15 @@ Lemma weightSum_nonneg : forall wf ents,
 Proof.
   intros wf ents; induction ents as [|e t IH]; intros H; cbn; [lia|].
   pose proof (H e (or_introl eq_refl)). assert (0 <= weightSum wf t) by (apply IH; intros; apply H; right; assumption). lia.
+Qed.
+
+Lemma prefixes_of_total : forall wf ents s L,
+  (forall e, In e ents -> 0 <= wf (snd e)) -> s + weightSum wf ents <= L -> prefixesLe wf ents s L.
+Proof.
+  intros wf ents; induction ents as [|e t IH]; intros s L Hnn Ht; cbn in *; [exact I|].
+  assert (0 <= weightSum wf t) by (apply weightSum_nonneg; intros; apply Hnn; right; assumption).
+  pose proof (Hnn e (or_introl eq_refl)).
+  split; [lia|]. apply IH; [intros; apply Hnn; right; assumption | lia].
 Qed.
 
 Lemma pick_at : forall wf pre m c post s,
@@ -123,11 +159,13 @@ Proof. intros wf legal ents rnd H; destruct ents; [contradiction | reflexivity].
 Lemma getBookMove_reachable : forall wf legal ents m c,
   Forall (fun e => In (fst e) legal) ents ->
   (forall e, In e ents -> 0 <= wf (snd e)) ->
+  weightSum wf ents <= sumLimit ->
   In (m, c) ents -> 0 < wf c ->
   exists rnd, 0 <= rnd < weightSum wf ents /\ getBookMove wf legal ents rnd = OutMove m.
 Proof.
-  intros wf legal ents m c Hall Hnn Hin Hpos.
-  apply in_split in Hin. destruct Hin as [pre [post ->]].
+  intros wf legal ents m c Hall Hnn Hlim Hin Hpos.
+  assert (Hpref : prefixesLe wf ents 0 sumLimit) by (apply prefixes_of_total; [exact Hnn | lia]).
+  clear Hlim. apply in_split in Hin. destruct Hin as [pre [post ->]].
   assert (Hpre : forall e, In e pre -> 0 <= wf (snd e)) by (intros; apply Hnn; apply in_or_app; left; assumption).
   assert (Hpost : 0 <= weightSum wf post) by (apply weightSum_nonneg; intros; apply Hnn; apply in_or_app; right; right; assumption).
   pose proof (weightSum_nonneg wf pre Hpre) as H0.
